@@ -10,6 +10,9 @@ require (
 	pgregory.net/rapid v1.3.0
 )
 
-require github.com/pion/randutil v0.1.0 // indirect
+require (
+	github.com/pion/randutil v0.1.0 // indirect
+	golang.org/x/time v0.14.0 // indirect
+)
 
 replace github.com/pion/interceptor => /repo
